@@ -490,8 +490,21 @@ def bounded_render_case(chooser, d, ev, fails, tag):
             return getattr(threading, k_)
 
     def fresh():
-        with mock.patch.object(mako.lookup, "threading", ThreadingProxy()):
-            return TemplateLookup(directories=[root], collection_size=2, filesystem_checks=False)
+        return TemplateLookup(directories=[root], collection_size=2, filesystem_checks=False)
+
+    # (active for the whole case: a lookup may create its lock at any time)
+    lock_patch = mock.patch.object(mako.lookup, "threading", ThreadingProxy())
+    lock_patch.start()
+    try:
+        return _bounded_render_run(chooser, ev, fails, tag, fresh, sref)
+    finally:
+        lock_patch.stop()
+
+
+def _bounded_render_run(chooser, ev, fails, tag, fresh, sref):
+    import mako.lookup
+    import mako.runtime
+    import mako.util
 
     # thread 0 resolves the same relative URIs twice (second time from the URI cache), thread 1 fills that cache with others
     plan = [["/s/a.html", "/s/a.html"], ["/s/b.html", "/s/c.html"]]
